@@ -275,6 +275,21 @@ func (g *gen) mutateOnce(pas *[]arg, tier string) string {
 			i := pickIdx(xs)
 			l := badValues(tier, t.Choose(12) == 11)
 			b := l[t.Choose(len(l))]
+			// bound the memory of a run: at most 2 values around MaxValueSize
+			// and 8 of 64 KiB / 1 MiB
+			if len(b.v) > 4<<20 {
+				if g.nHuge >= 2 {
+					b = l[0]
+				} else {
+					g.nHuge++
+				}
+			} else if len(b.v) >= 65536 {
+				if g.nBig >= 8 {
+					b = l[0]
+				} else {
+					g.nBig++
+				}
+			}
 			as[i].v = b.v
 			return b.tag + "-value"
 		}
@@ -397,6 +412,13 @@ func (g *gen) mutateOnce(pas *[]arg, tier string) string {
 				width = 2 // repeat a pair
 			}
 			n := []int{common.MAX_BATCH_NUM - 1, common.MAX_BATCH_NUM, common.MAX_BATCH_NUM + 1, 2 * common.MAX_BATCH_NUM, 10*common.MAX_BATCH_NUM + 1}[t.Choose(5)]
+			if strings.HasPrefix(strings.ToLower(as[0].v), "json.") && n > common.MAX_BATCH_NUM+1 {
+				// JSON.ARRAPPEND re-encodes the whole document once per value
+				// (quadratic): 100000 values keep the apply loop busy for more
+				// than five minutes of CPU. Reported as an observation; not
+				// generated, it would only stall the worker.
+				n = common.MAX_BATCH_NUM + 1
+			}
 			grp := append([]arg(nil), as[i:i+width]...)
 			gsz := 0
 			for _, a := range grp {
